@@ -114,3 +114,82 @@ def explore(run, binp, n):
     run.extra["parse_special_L1_outcomes"] = stat
     run.oblige("corr:L1 Model.ParseSpecial = ada::parse<ada::url>(input) without a base, every scheme (every field, failures)",
                not bad, "; ".join(f"input {unhx(l.split()[1])!r}: implementation [{r[:300]}], model [{m[:300]}]" for l, r, m in bad[:3]))
+
+
+BASES = [b"http://u:p@h:81/a/b/c?z#y", b"https://example.com/", b"https://example.com", b"http://h/a/b/../c/./d", b"ws://h/p/", b"wss://[::1]:8/x?",
+         b"ftp://1.2.3.4/a", b"http://h/?", b"http://h/a?b#c", b"file:///C:/a/b", b"file:///C:/", b"file:///c:", b"file://host/a/b?q", b"file:///a/b/c",
+         b"file:///", b"file:", b"file:///C|/x/y", b"file://localhost/D:/x", b"foo://u@h:8/a/b?q", b"foo://h", b"foo://h/", b"foo:///a/b", b"foo://",
+         b"foo:/a/b/c", b"foo:/", b"foo:/.//a", b"foo:opaque path?q#f", b"mailto:x@y", b"foo:", b"foo:a b #f", b"blob:https://a.b/x",
+         b"http://h/C:/a", b"http://xn--a.com/%2e/x y?a'b", b"foo://h/a/..//b", b"http://h//a//b//", b"file:///a//b", b"file://h/C:/x"]
+REFS = [b"", b"x", b"x/y", b"../x", b"../../..", b"./", b".", b"..", b"/x", b"/", b"//h2/p", b"//h2", b"//", b"///x", b"\\\\h2\\p", b"/\\h2", b"\\/h2", b"\\x", b"?q", b"?", b"#f", b"#",
+        b"?q#f", b"x?q r#f g", b"%2e%2e/x", b".%2E/", b"C:", b"C:/x", b"c|/", b"/C:/", b"/c|", b"\\C:\\x", b"//C:/", b"//C|/x", b"C|", b"/C|/../x", b"C:x", b"C|?q",
+        b"http:", b"http:x", b"http:/x", b"http://h3/y", b"http:\\x", b"HTTP:..", b"https:x", b"ws:x", b"file:", b"file:x", b"file:/x", b"file://h4/x", b"file:..",
+        b"FILE:C|/y", b"file:?q", b"file:#f", b"foo:", b"foo:x", b"foo:/x", b"foo://x", b"bar:x", b"a b", b" x ", b"\tx\n", b"x\ty", b":", b":x", b"1x:y", b"x:y",
+        b"//u:p@h5:9/z", b"//@", b"//h:99999", b"//[::1", b"//a b", b"/a/../b/./c", b"a/b/../..", b"/..//x", b"/.//x", b"x//y", b"//h/..", b"?a'b\"c", b"/%41 b"]
+
+
+def gen_base_pair(rng):
+    r = rng.random()
+    base = rng.choice(BASES) if r < 0.7 else genlib.gen_absolute(rng)
+    k = rng.random()
+    if k < 0.6:
+        ref = rng.choice(REFS)
+    elif k < 0.85:
+        ref = genlib.gen_reference(rng)
+    else:
+        ref = gen_input(rng)
+    return genlib.pad(rng, ref) if rng.random() < 0.5 else ref, base
+
+
+def explore_base(run, binp, n):
+    """parse_url_impl<ada::url>(input, &base) against Model.ParseSpecial.parseWithBase, on the field values of the real base object."""
+    rng = run.rng
+    pairs = sorted({gen_base_pair(rng) for _ in range(n)})
+    rng.shuffle(pairs)
+    lines = [f"parsebase {hx(i)} {hx(b)}" for i, b in pairs]
+    lines = [l for l in lines if len(l.split()) == 3]
+    real, crash = lib.run_lines(binp, lines, timeout=900)
+    if crash:
+        idx = min(crash.get("answered", 0), len(lines) - 1)
+        run.violation("crash:" + lines[idx], "ada::parse<ada::url> with a base crashed/aborted", lines=[lines[idx]], detail=crash)
+        return
+    keep = [(l, r.split()) for l, r in zip(lines, real) if r != "badbase"]
+    q = ["parse.base " + l.split()[1] + " " + " ".join(p[:10]) for l, p in keep]
+    model, dcrash = lib.run_lines(lib.driver_path(), q, timeout=900)
+    if dcrash:
+        run.oblige("corr:L1 parse_url_impl with a base (driver)", False, str(dcrash)[:300])
+        return
+    idna_via = wpt.idna_via_harness(binp)
+    hints = {}
+    for _ in range(4):
+        need = sorted({unhx(a.split()[1]) for a in model if a.startswith("need-idna ")} - set(hints))
+        if not need:
+            break
+        for d, o in zip(need, idna_via(need)):
+            hints[d] = o
+        idx = [i for i, a in enumerate(model) if a.startswith("need-idna ")]
+        sub, dcrash = lib.run_lines(lib.driver_path(), [q[i] + " " + " ".join(f"{hx(d)}={'!' if hints[d] is None else hx(hints[d])}"
+                                                                                 for d in [unhx(model[i].split()[1])] if d in hints)
+                                                         for i in idx], timeout=900)
+        if dcrash:
+            run.oblige("corr:L1 parse_url_impl with a base (driver)", False, str(dcrash)[:300])
+            return
+        for i, a in zip(idx, sub):
+            model[i] = a
+    bad, stat = [], {"bad_base": len(lines) - len(keep), "invalid": 0, "ok": 0, "base_file": 0, "base_special": 0, "base_opaque": 0,
+                     "base_other": 0, "result_keeps_base_host": 0}
+    for (l, p), m in zip(keep, model):
+        run.count()
+        run.nontriv(l)
+        want = " ".join(p[10:])
+        stat["invalid" if want == "invalid" else "ok"] += 1
+        stat["base_file" if p[0] == "66696c65" else "base_special" if p[1] == "1" else "base_opaque" if p[9] == "1" else "base_other"] += 1
+        if want != "invalid" and p[14] == p[4] and p[10] == p[0]:
+            stat["result_keeps_base_host"] += 1
+        if want != m:
+            bad.append((l, want, m))
+    run.extra["parse_base_L1_pairs"] = len(keep)
+    run.extra["parse_base_L1_outcomes"] = stat
+    run.oblige("corr:L1 Model.ParseSpecial.parseWithBase = ada::parse<ada::url>(input, &base) (every field, failures)",
+               not bad, "; ".join(f"input {unhx(l.split()[1])!r} base {unhx(l.split()[2])!r}: implementation [{r[:300]}], model [{m[:300]}]"
+                                  for l, r, m in bad[:3]))
